@@ -25,4 +25,5 @@ EXTRAS = [
     lambda rep, fb, tier: __import__("vf.rules.lints", fromlist=["x"]).rule_ptr_byteoffset(rep, fb),
     lambda rep, fb, tier: __import__("vf.rules.lints", fromlist=["x"]).rule_shape_subscript(rep, fb),
     lambda rep, fb, tier: __import__("vf.rules.lints", fromlist=["x"]).rule_index_ptr_offset(rep, fb),
+    lambda rep, fb, tier: __import__("vf.rules.lints", fromlist=["x"]).rule_advanced_projected(rep, fb),
 ]
